@@ -104,6 +104,19 @@ CONSTRAINTS = ['r.size >1', 'r.size = 3', 'r.charge = 0', 'r is cyclic', 'r is a
                'r contains group g', 'r contains >1 of group g', '! r is cyclic', 'r is cyclic && r.size <5', '( r is cyclic )',
                '( r.size >1 || r is aromatic )', 'r.size + q.size <9', 'r is', 'r', '', 'r.formula is', 'r contains 2 of', 'is cyclic',
                'fragment f{ C labeled a } r contains f']
+# atom-type modification (unsupported: NotImplementedError) and reactant groups / duplicates (known finding: unreadable)
+RULES += ['rule m{ reactant r{ %s labeled c1} modify atomtype (c1, %s)}' % (a, b)
+          for a, b in [('C', 'C'), ('C', 'C.'), ('C.', 'C'), ('N', 'N+'), ('X', 'X'), ('C', 'N'), ('$', '$.'), ('O', 'O:')]]
+GROUP_DUP = [
+    'rule g{ reactant q group g1 ( a => b ) form bond (a,b)}',
+    'rule g{ reactant r{ C labeled a} reactant q group g1 ( a => b ) increase formal charge (a) decrease formal charge (a)}',
+    'rule d{ reactant r{ C labeled a} reactant q duplicates r ( a => b ) increase formal charge (a) decrease formal charge (a)}',
+    'rule d{ reactant q duplicates r ( a => b ) reactant r{ C labeled a} increase formal charge (a) decrease formal charge (a)}',
+    'rule d{ reactant q duplicates r ( a => b, c => d ) reactant r{ C labeled a C labeled c single bond to a} break bond (a,c) increase number of radical (a) increase number of radical (c)}']
+RULES += GROUP_DUP
+# several reactants: outside the C16 model (guard) - read by C09 only
+BIMOLECULAR = ['rule two{ reactant r{ C. labeled a} reactant q{ C. labeled b} form bond (a,b) decrease number of radical (a) decrease number of radical (b)}',
+          'rule two{ reactant r{ C. labeled a} reactant r{ C. labeled b} form bond (a,b) decrease number of radical (a) decrease number of radical (b)}']
 RULES += ['rule k{ reactant r{ C labeled c1} constraints{ %s } increase formal charge (c1) decrease formal charge (c1)}' % c for c in CONSTRAINTS]
 
 
@@ -253,3 +266,12 @@ def rule(rng, balanced=True):
     rng.shuffle(edits) if rng.random() < 0.3 else None
     text = 'rule r%d{ reactant m{ %s } %s }' % (rng.randint(1, 99), ' '.join(parts), ' '.join(edits))
     return text
+
+
+import re as _re
+_GD = _re.compile(r'reactant\s+\w+\s+(group|duplicates)\b')
+
+
+def has_group_or_duplicates(text):
+    """a rule whose reactant list names a reactant group or a duplicate (known finding: cannot be read)"""
+    return bool(_GD.search(text))
